@@ -77,25 +77,24 @@ def pairs? {β : Type} (f : Sexp → Option β) (x : Sexp) : Option (List (β ×
     | .list [a, b] => do some (← f a, ← f b)
     | _ => none)
 
-/-- apply one operation; `none` = malformed request -/
-def applyOp (g : G) : Sexp → Option (Except Err G)
-  | .list [.atom "addc", c] => do some (.ok (addCompartment g (← comp? c)))
-  | .list [.atom "rmc", c] => do some (removeCompartment g (← comp? c))
-  | .list [.atom "addflow", s, d, r] => do some (.ok (addFlow g (← comp? s) (← node? d) (← Expr.ofSexp? r)))
-  | .list [.atom "rmflow", s, d] => do some (removeFlow g (← comp? s) (← node? d))
-  | .list [.atom "movedose", s, d, a] => do some (moveDose g (← comp? s) (← comp? d) (← admid? a))
-  | .list [.atom "setdose", c, ds] => do some (setDose g (← comp? c) (← doses? ds))
-  | .list [.atom "adddose", c, ds] => do some (addDose g (← comp? c) (← doses? ds))
-  | .list [.atom "rmdose", c, a] => do some (removeDose g (← comp? c) (← admid? a))
-  | .list [.atom "setlag", c, e] => do some (setLagTime g (← comp? c) (← Expr.ofSexp? e))
-  | .list [.atom "setbio", c, e] => do some (setBioavailability g (← comp? c) (← Expr.ofSexp? e))
-  | .list [.atom "setinput", c, e] => do some (setInput g (← comp? c) (← Expr.ofSexp? e))
-  | .list [.atom "subs", rs, ms] => do
-      let rs ← pairs? Expr.ofSexp? rs
-      let ms ← pairs? node? ms
-      some (subsGraph g (fun e => (alGet? rs e).getD e) ms)
-  | .list [.atom "roundtrip"] => some (.ok (fromDict (toDict g)))
+/-- decode one operation; `none` = malformed request -/
+def op? : Sexp → Option (Op Expr)
+  | .list [.atom "addc", c] => do some (.addCompartment (← comp? c))
+  | .list [.atom "rmc", c] => do some (.removeCompartment (← comp? c))
+  | .list [.atom "addflow", s, d, r] => do some (.addFlow (← comp? s) (← node? d) (← Expr.ofSexp? r))
+  | .list [.atom "rmflow", s, d] => do some (.removeFlow (← comp? s) (← node? d))
+  | .list [.atom "movedose", s, d, a] => do some (.moveDose (← comp? s) (← comp? d) (← admid? a))
+  | .list [.atom "setdose", c, ds] => do some (.setDose (← comp? c) (← doses? ds))
+  | .list [.atom "adddose", c, ds] => do some (.addDose (← comp? c) (← doses? ds))
+  | .list [.atom "rmdose", c, a] => do some (.removeDose (← comp? c) (← admid? a))
+  | .list [.atom "setlag", c, e] => do some (.setLagTime (← comp? c) (← Expr.ofSexp? e))
+  | .list [.atom "setbio", c, e] => do some (.setBioavailability (← comp? c) (← Expr.ofSexp? e))
+  | .list [.atom "setinput", c, e] => do some (.setInput (← comp? c) (← Expr.ofSexp? e))
+  | .list [.atom "subs", rs, ms] => do some (.subs (← pairs? Expr.ofSexp? rs) (← pairs? node? ms))
+  | .list [.atom "roundtrip"] => some .roundtrip
   | _ => none
+
+def applyOp (g : G) (x : Sexp) : Option (Except Err G) := (op? x).map (fun op => op.apply g)
 
 def flowOf (g : G) (u v : Node Expr) : Expr := (g.getFlow u v).getD 0
 def amountOf : Node Expr → Expr
